@@ -5,6 +5,7 @@ import (
 	"fmt"
 	"strings"
 
+	apb "github.com/google/fhir/go/proto/google/fhir/proto/annotations_go_proto"
 	dtpb "github.com/google/fhir/go/proto/google/fhir/proto/r4/core/datatypes_go_proto"
 	bcrpb "github.com/google/fhir/go/proto/google/fhir/proto/r4/core/resources/bundle_and_contained_resource_go_proto"
 	"github.com/iancoleman/strcase"
@@ -278,7 +279,10 @@ func (e *FieldExpression) unwrapReference(ref *dtpb.Reference) *dtpb.String {
 func (e *FieldExpression) unwrapOneof(obj proto.Message) proto.Message {
 	message := obj.ProtoReflect()
 	descriptor := message.Descriptor()
-	if name := string(descriptor.Name()); !(strings.HasSuffix(name, "ValueX") || name == "ContainedResource") {
+	// Choice elements (deceased[x], effective[x], value[x], ...) are wrapper
+	// messages that google/fhir marks with the is_choice_type annotation.
+	isChoice, _ := proto.GetExtension(descriptor.Options(), apb.E_IsChoiceType).(bool)
+	if !(isChoice || descriptor.Name() == "ContainedResource") {
 		return obj
 	}
 	oneofsNum := descriptor.Oneofs().Len()
